@@ -916,11 +916,28 @@ VH_TARGET(views, 3,
     in.unit  = units[rd.weighted({3, 2, 1})];
     in.desc  = descs[rd.below(2)];
     in.plan  = rd.chance(60) ? 1 : 0;
-    bool dup = false;  // one instrument per (meter, name): re-registration is property C06's subject
+    // a "unit sibling": the previous instrument's meter, name, type, value type and description
+    // with another unit.  It is a different instrument (a unit selector tells the two apart), the
+    // second one must not be taken for a further handle of the first.
+    bool sibling = !insts.empty() && rd.chance(20);
+    if (sibling)
+    {
+      const InstSpec &prev = insts.back();
+      std::string other    = prev.unit == "ms" ? (rd.coin() ? "" : "s") : "ms";
+      in                   = prev;
+      in.unit              = other;
+      in.plan              = rd.chance(60) ? 1 : 0;
+    }
+    // otherwise one instrument per (meter, name): re-registration is property C06's subject
+    bool dup = false;
     for (auto &o : insts)
-      dup = dup || (o.meter == in.meter && o.name == in.name);
+      dup = dup || (o.meter == in.meter && o.name == in.name && (!sibling || o.unit == in.unit));
     if (!dup)
+    {
       insts.push_back(in);
+      if (sibling)
+        c.tag("same-name-other-unit");
+    }
   }
   // ---- views
   std::vector<ViewSpec> views;
